@@ -1,16 +1,37 @@
 /-
-  spmodel — extension slot C of the line protocol (ops of one model extension;
-  chained from Driver/Ext.lean).
+  spmodel — extension slot C of the line protocol: the strict reference decoder
+  (the oracle of C08), layer W alone — no keys needed:
+
+    sdw <enc|att|det|sc> <hex>   →  ok <hex of render (parse bytes)>  |  reject <why>
+
+  On every accepted byte string `render (parse b)` must be `b` itself
+  (`C08_decode_sound_*`), which the harness checks on the answer.
 -/
 import Driver.Util
+import Saltpack.Model.SpecDecode
 
 open Saltpack
 
 namespace DriverExtC
 open Driver
 
+def showW (r : Except String Bytes) : String :=
+  match r with
+  | .ok b => "ok " ++ toHex b
+  | .error e => "reject " ++ e.replace " " "_"
+
 def handle (toks : List String) : Option String :=
   match toks with
+  | ["sdw", mode, msg] =>
+    match ofHex msg with
+    | none => none
+    | some b =>
+      match mode with
+      | "enc" => some (showW ((SpecDecode.EncMsg.parse b).map (·.render)))
+      | "att" => some (showW ((SpecDecode.AttMsg.parse b).map (·.render)))
+      | "det" => some (showW ((SpecDecode.DetMsg.parse b).map (·.render)))
+      | "sc" => some (showW ((SpecDecode.ScMsg.parse b).map (·.render)))
+      | _ => none
   | _ => none
 
 end DriverExtC
